@@ -128,6 +128,8 @@ def tables(ctx: Ctx):
     t["tsstr"] = ({"dob": "VARCHAR"}, [{"dob": p} for p in with_nulls(tps, TS_STR[0])])
     tsv = [dt.datetime.strptime(s, "%Y-%m-%dT%H:%M:%SZ") for s in TS_STR]
     t["ts"] = ({"ts": "TIMESTAMP"}, [{"ts": p} for p in with_nulls([(a, b) for a in tsv[:4] for b in tsv] + [(rng.choice(tsv), rng.choice(tsv)) for _ in range(n)], tsv[0])])
+    dts = [dt.date(2000, 1, 31), dt.date(2000, 1, 30), dt.date(2000, 2, 1), dt.date(1999, 1, 31), dt.date(2000, 1, 31)]
+    t["dated"] = ({"dob": "DATE"}, [{"dob": p} for p in with_nulls([(a, b) for a in dts for b in dts], dts[0])])
     cps = [(a, b) for a in COORDS[:7] for b in COORDS] + [(rng.choice(COORDS), rng.choice(COORDS)) for _ in range(n)]
     rows = [{"lat": (a[0], b[0]), "lng": (a[1], b[1])} for a, b in cps]
     rows += [{"lat": (None, 1.0), "lng": (1.0, 1.0)}, {"lat": (1.0, 1.0), "lng": (1.0, None)}, {"lat": (None, None), "lng": (None, None)}]
@@ -152,7 +154,7 @@ def tables_for(inst: T.LevelInst, d: str):
         return ["num", "int"] if inst.cols[0].name == "amount" else ["str"]
     if k == "literal":
         ty = inst.meta["type"]
-        return ["str"] if ty == "string" else [] if ty == "date" else ["num", "int"]
+        return ["str"] if ty == "string" else ["dated"] if ty == "date" else ["num", "int"]
     if k == "absdiff":
         return ["num", "int"]
     if k == "pctdiff":
@@ -186,7 +188,7 @@ class Engine:
             raise RuntimeError("arrays unsupported on sqlite")
         cols = []
         for c, ty in types.items():
-            ty2 = ty if self.d == "duckdb" else {"VARCHAR": "TEXT", "DOUBLE": "REAL", "BIGINT": "INTEGER", "TIMESTAMP": "TEXT"}[ty]
+            ty2 = ty if self.d == "duckdb" else {"VARCHAR": "TEXT", "DOUBLE": "REAL", "BIGINT": "INTEGER", "TIMESTAMP": "TEXT", "DATE": "TEXT"}[ty]
             cols += [f'"{c}_l" {ty2}', f'"{c}_r" {ty2}']
         self.con.execute(f"CREATE TABLE t_{name} (id INTEGER, {', '.join(cols)})")
         ph = ", ".join(["?"] * (1 + 2 * len(types)))
@@ -197,6 +199,8 @@ class Engine:
                 for v in r[c]:
                     if self.d == "sqlite" and isinstance(v, dt.datetime):
                         v = v.isoformat(sep=" ")
+                    elif self.d == "sqlite" and isinstance(v, dt.date):
+                        v = v.isoformat()
                     vals.append(v)
             data.append(vals)
         self.con.executemany(f"INSERT INTO t_{name} VALUES ({ph})", data)
@@ -264,8 +268,10 @@ def doc_level(inst: T.LevelInst, row: dict, d: str):
         return O.eq3(*lrv(cs[0]))
     if k == "literal":
         a, b = lrv(cs[0])
-        x = m["value"] if m["type"] == "string" else Fraction(m["value"])
-        cv = (lambda v: v) if m["type"] == "string" else (lambda v: None if v is None else Fraction(v))
+        if m["type"] == "date":     # native DATE column (ISO text on SQLite) against the date literal
+            a, b = (None if v is None else v.isoformat() for v in (a, b))
+        x = m["value"] if m["type"] in ("string", "date") else Fraction(m["value"])
+        cv = (lambda v: v) if m["type"] in ("string", "date") else (lambda v: None if v is None else Fraction(v))
         l, r = O.eq3(cv(a), x), O.eq3(cv(b), x)
         return {"left": l, "right": r, "both": O.and3([l, r])}[m["side"]]
     if k == "reversed":
@@ -520,7 +526,8 @@ def level_stage(ctx: Ctx, insts, tabs, dialects):
                         ctx.obligation(f"engine epochs for {inst.key} on {d}", False, str(e)[:300])
                         eng_epochs = None
                 coq_rows, idx = [], []
-                use_coq = gen is not None and inst.kind in COQ_KINDS and not (inst.kind == "distance_function" and inst.meta["function"] not in BUILTIN_FNS)
+                use_coq = gen is not None and inst.kind in COQ_KINDS and not (inst.kind == "distance_function" and inst.meta["function"] not in BUILTIN_FNS) \
+                    and not (inst.kind == "literal" and inst.meta["type"] == "date")      # date literals: python oracle only
                 for i, r in enumerate(rows):
                     doc = docs[i]
                     key = (d, inst.key, tname, i)
